@@ -99,6 +99,19 @@ def compare_states(a, b):
     return out
 
 
+def link_check(m, res, fam_names, stage):
+    """Forward links and reverse look-ups must agree (same monitor as C16)."""
+    from checks import c16
+    seen = set()
+    for clause, where, detail in c16.link_violations(m, c16.forward_links(m)):
+        if clause == "object-in-two-systems" or (clause, where) in seen:
+            continue
+        seen.add((clause, where))
+        res["violations"].append({"sig": {"clause": "links-inconsistent:" + clause, "failure": fam_names, "where": where,
+                                          "stage": stage.split(":")[0]},
+                                  "detail": {"what": detail, "stage": stage}})
+
+
 def run_task(task):
     w = task["world_spec"] if "world_spec" in task else world_for(task["world"])
     perms = task.get("perms")
@@ -163,6 +176,7 @@ def run_task(task):
         res["violations"].append({"sig": {"clause": "not-restored:" + what, "failure": fam_names, "where": where},
                                   "detail": {"first_difference": [str(x)[:300] for x in first]}})
     w = w_expected
+    link_check(m, res, fam_names, "after-recovery")
     fr = c01.fresh_snapshot(w, perms)
     boot.set_ranks(m.ranks)
     if fr[0] == "ok":
@@ -198,6 +212,7 @@ def run_task(task):
                     "sig": {"clause": "followup-differs-from-fresh-build", "failure": fam_names, "letter": lc,
                             "first_divergent": S.class_attr(S.unwrap(o), first[0][1]) if o is not None else "?"},
                     "detail": {"first": [str(x)[:300] for x in first], "n": len(d)}})
+            link_check(m, res, fam_names, "after-followup:" + lc)
             res["followup"] = "accepted"
         elif live_exc is not None and fr2[0] == "ok":
             # tolerated when the same letter is also refused on a fresh live model (spares etc.): compare
@@ -219,7 +234,12 @@ def run_task(task):
 
 def followups(fam, w):
     w0 = world_for(fam)
-    return c01.core_alphabet(w, w0)
+    out = c01.core_alphabet(w, w0)
+    for n in W.reachable(w):
+        o = w["objects"][n]
+        if o["cls"] == "UsageJourneyStep" and len(o["attrs"]["jobs"][1]) > 1:
+            out.append(["lop", n, "jobs", "pop", []])
+    return out
 
 
 TIERS = {"quick": {"worlds": [("W1", "rev"), ("W3", "default")], "pre": 1, "double": True, "followup_stride": 2},
